@@ -32,6 +32,9 @@ type From struct {
 	SharedGT int `json:"sgt,omitempty"`
 	// W2 k > 0: a second .where(lambda: "v" != k-1) on the same from() (conditions are AND-ed)
 	W2 int `json:"w2,omitempty"`
+	// Parent k > 0: this from() is chained below from() number k-1 of the task (which keeps its own
+	// log() child): it sees what the parent selects and selects from that
+	Parent int `json:"parent,omitempty"`
 }
 
 type TaskDef struct {
@@ -46,6 +49,9 @@ type W struct {
 	// NoV: the point does not carry the field v that the where() conditions refer to (it carries
 	// u instead): a condition that cannot be evaluated does not select the point
 	NoV bool `json:"nov,omitempty"`
+	// NoRP: written without a retention policy (the task master's default one is r0: only points
+	// of a dbrp with r0 are written so)
+	NoRP bool `json:"norp,omitempty"`
 }
 
 type Op struct {
@@ -62,7 +68,7 @@ type Case struct {
 	Ops       []Op      `json:"ops"`
 }
 
-const rule = "rapid: histories (<=25 steps) of start/stop/delete/restart of up to 4 stream tasks (1-3 from() nodes with db/rp/measurement/where filters - conditions given inline or through a lambda variable shared by several from() nodes, one or two where() per node -, generated dbrp sets) and writes over 2 dbs x 2 rps x 3 measurements; 2 generated observer tasks plus a universal one run throughout; " +
+const rule = "rapid: histories (<=25 steps) of start/stop/delete/restart of up to 4 stream tasks (1-3 from() nodes with db/rp/measurement/where filters - conditions given inline or through a lambda variable shared by several from() nodes, one or two where() per node, from() nodes chained below another from() that keeps its own consumer -, generated dbrp sets) and writes over 2 dbs x 2 rps x 3 measurements (with the retention policy named or left to the task master's default); 2 generated observer tasks plus a universal one run throughout; " +
 	"oracle: routing model (exact for observers; exactly-once/in-order/only-matching/nothing-missed for tasks started and stopped on the way); non-trivial = >=2 tasks with different selections enabled at once and >=1 start/stop between writes; distinct by case hash"
 
 var dbrpUniverse = []kapacitor.DBRP{{Database: "d0", RetentionPolicy: "r0"}, {Database: "d0", RetentionPolicy: "r1"}, {Database: "d1", RetentionPolicy: "r0"}, {Database: "d1", RetentionPolicy: "r1"}}
@@ -101,9 +107,25 @@ func genDef(t *rapid.T) TaskDef {
 		if (f.Where >= 0 || f.SharedGT > 0) && rapid.IntRange(0, 2).Draw(t, "hasw2") == 0 {
 			f.W2 = 1 + rapid.IntRange(0, 9).Draw(t, "w2")
 		}
+		if i > 0 && rapid.IntRange(0, 3).Draw(t, "chained") == 0 {
+			f.Parent = 1 + rapid.IntRange(0, i-1).Draw(t, "parent")
+		}
 		d.Froms = append(d.Froms, f)
 	}
 	return d
+}
+
+// sel: from() number j of the task selects the point (its own filters and those of the from()
+// nodes it is chained below).
+func (d TaskDef) sel(j int, w written) bool {
+	f := d.Froms[j]
+	if !f.matches(w) {
+		return false
+	}
+	if f.Parent > 0 && f.Parent-1 < j {
+		return d.sel(f.Parent-1, w)
+	}
+	return true
 }
 
 func gen(t *rapid.T) Case {
@@ -127,7 +149,7 @@ func gen(t *rapid.T) Case {
 			k := rapid.IntRange(1, 8).Draw(t, "npts")
 			for j := 0; j < k; j++ {
 				op.Pts = append(op.Pts, W{DBRP: rapid.IntRange(0, 3).Draw(t, "dbrp"), M: rapid.IntRange(0, 2).Draw(t, "m"), V: int64(rapid.IntRange(0, 9).Draw(t, "v")),
-					NoV: rapid.IntRange(0, 5).Draw(t, "nov") == 0})
+					NoV: rapid.IntRange(0, 5).Draw(t, "nov") == 0, NoRP: rapid.IntRange(0, 3).Draw(t, "norp") == 0})
 			}
 		}
 		op.NoQuiet = rapid.IntRange(0, 3).Draw(t, "noquiet") == 0
@@ -144,8 +166,19 @@ func (d TaskDef) script(id string) string {
 			break
 		}
 	}
+	chained := false
+	for _, f := range d.Froms {
+		chained = chained || f.Parent > 0
+	}
 	for i, f := range d.Froms {
-		s.WriteString("stream|from()")
+		switch {
+		case !chained:
+			s.WriteString("stream|from()")
+		case f.Parent > 0 && f.Parent-1 < i:
+			fmt.Fprintf(&s, "var f%d = f%d|from()", i, f.Parent-1)
+		default:
+			fmt.Fprintf(&s, "var f%d = stream|from()", i)
+		}
 		if f.DB != "" {
 			fmt.Fprintf(&s, ".database('%s')", f.DB)
 		}
@@ -163,6 +196,9 @@ func (d TaskDef) script(id string) string {
 		}
 		if f.W2 > 0 {
 			fmt.Fprintf(&s, ".where(lambda: \"v\" != %d)", f.W2-1)
+		}
+		if chained {
+			fmt.Fprintf(&s, "\nf%d", i)
 		}
 		fmt.Fprintf(&s, "|log().prefix('%s.%d')\n", id, i)
 	}
@@ -237,7 +273,7 @@ func serials(obs []kit.Obs) []int64 {
 }
 
 func run(c Case, cc *kit.Case) {
-	env, err := kit.NewEnv(kit.EnvOpts{})
+	env, err := kit.NewEnv(kit.EnvOpts{Prepare: func(e *kit.Env) { e.TM.DefaultRetentionPolicy = "r0" }})
 	if err != nil {
 		cc.Fail("harness/env", "env: %v", err)
 		return
@@ -359,7 +395,7 @@ func run(c Case, cc *kit.Case) {
 			for i < len(op.Pts) {
 				j := i + 1
 				if op.Batch {
-					for j < len(op.Pts) && op.Pts[j].DBRP == op.Pts[i].DBRP {
+					for j < len(op.Pts) && op.Pts[j].DBRP == op.Pts[i].DBRP && op.Pts[j].NoRP == op.Pts[i].NoRP {
 						j++
 					}
 				}
@@ -380,6 +416,10 @@ func run(c Case, cc *kit.Case) {
 					all = append(all, written{n: n, dbrp: w.DBRP, m: measurements[w.M], v: w.V, noV: w.NoV})
 				}
 				d := dbrpUniverse[op.Pts[i].DBRP]
+				if op.Pts[i].NoRP && d.RetentionPolicy == "r0" {
+					d.RetentionPolicy = "" // the task master's default
+					cc.Label("written-without-rp")
+				}
 				if err := tm.WritePoints(d.Database, d.RetentionPolicy, imodels.ConsistencyLevelAll, pts); err != nil {
 					cc.Fail("routing/write-error", "WritePoints: %v", err)
 					return
@@ -461,7 +501,7 @@ func run(c Case, cc *kit.Case) {
 		for j, f := range d.Froms {
 			var want []int64
 			for _, w := range all {
-				if d.declares(w) && f.matches(w) {
+				if d.declares(w) && d.sel(j, w) {
 					want = append(want, w.n)
 				}
 			}
@@ -505,7 +545,7 @@ func run(c Case, cc *kit.Case) {
 				}
 				f := iv.def.Froms[j]
 				for _, w := range all {
-					if !(iv.def.declares(w) && f.matches(w)) {
+					if !(iv.def.declares(w) && iv.def.sel(j, w)) {
 						continue
 					}
 					if w.n >= iv.mayFrom && w.n < iv.mayTo {
@@ -543,6 +583,7 @@ var assumptions = []string{
 	"points are written through TaskMaster.WritePoints (what the HTTP write handler and the UDP/other listeners call); measurement names are non-empty (line protocol cannot produce an empty one)",
 	"a point written after StartTask returned is forked after the subscription; a point is known to be forked once the universal observer task's sink has seen it (forkPoint serves all subscribed tasks in one call)",
 	"for a task stopped on the way, points still in the ingest buffer when the stop is requested may go either way (C07 covers the stopping task itself); with quiescence observed before the stop they must all be delivered",
+	"a from() chained below another from() selects from what the parent selects (both filters apply); a write without a retention policy is a write to TaskMaster.DefaultRetentionPolicy (task_master.go WritePoints; the daemon sets it from its configuration)",
 	"where() filters compare the integer field v; one point in six carries u instead: a condition that cannot be evaluated for a point does not select it",
 }
 
